@@ -20,7 +20,10 @@ Since the repair of F20 the DEFINITIONS of the struct types used by reachable
 parameters are part of the compared meaning (`Meaning.compared.2`, the unfolded
 type trees `typesSem`): `Ast.EquivalentCall` runs a second pass (`structComparer`)
 over the same call tree which compares them member by member.  Whether that
-pass exists is the regenerated fact `Gen.c15StructsCompared`.
+pass exists is the regenerated fact `Gen.c15StructsCompared`.  Inside struct
+definitions the code ignores member help strings, member output file names and
+the file-type name of a scalar file member; the type trees leave them out, and
+there is no `Ignored` constructor for them (`Ignored` enumerates the call tree only).
 Not part of the meaning at all (purely textual): comments, whitespace, order of
 declarations / parameters / bindings / calls / map keys, include structure,
 callables and types not reachable from the top-level call.
